@@ -35,6 +35,11 @@ extern "C" std::string c02_set_text(fcppt::container::detail::output<std::unorde
   return std::string{"{set}"};
 }
 
+extern "C" std::wstring c02_wset_text(fcppt::container::detail::output<std::unordered_set<wchar_t>> const &, std::locale const &)
+{
+  return std::wstring{L"{set}"};
+}
+
 namespace c02
 {
 using u64 = std::uint64_t;
@@ -42,22 +47,24 @@ constexpr unsigned max_len = 6;
 
 // ------------------------------------------------------------------ the input: n symbolic bytes behind the PUBLIC
 // abstract stream interface.  Positions carry no location, so detail::expected never formats a location.
-class arr_stream : public fcppt::parse::basic_stream<char>
+template <typename Ch>
+class basic_arr_stream : public fcppt::parse::basic_stream<Ch>
 {
 public:
-  arr_stream(char const *const d, unsigned const n) : d_{d}, n_{n}, i_{0}, gets_{0}, sets_{0} {}
-  ~arr_stream() override = default;
-  fcppt::optional::object<char> get_char() override
+  basic_arr_stream(Ch const *const d, unsigned const n) : d_{d}, n_{n}, i_{0}, gets_{0}, sets_{0} {}
+  ~basic_arr_stream() override = default;
+  fcppt::optional::object<Ch> get_char() override
   {
     ++gets_;
-    return i_ < n_ ? fcppt::optional::object<char>{d_[i_++]} : fcppt::optional::object<char>{};
+    return i_ < n_ ? fcppt::optional::object<Ch>{d_[i_++]} : fcppt::optional::object<Ch>{};
   }
-  fcppt::parse::position<char> get_position() const override
+  fcppt::parse::position<Ch> get_position() const override
   {
-    return fcppt::parse::position<char>{
-        std::streampos{static_cast<std::streamoff>(i_)}, fcppt::parse::position<char>::optional_location{}};
+    return fcppt::parse::position<Ch>{
+        typename fcppt::parse::position<Ch>::pos_type{static_cast<std::streamoff>(i_)},
+        typename fcppt::parse::position<Ch>::optional_location{}};
   }
-  void set_position(fcppt::parse::position<char> const &p) override
+  void set_position(fcppt::parse::position<Ch> const &p) override
   {
     ++sets_;
     i_ = static_cast<unsigned>(std::streamoff{p.pos()});
@@ -66,27 +73,37 @@ public:
   unsigned gets() const { return gets_; }
 
 private:
-  char const *d_;
+  Ch const *d_;
   unsigned n_, i_, gets_, sets_;
 };
+using arr_stream = basic_arr_stream<char>;
 
-struct input
+template <typename Ch>
+struct basic_input
 {
-  char b[max_len + 1];
+  Ch b[max_len + 1];
+  long code[max_len + 1]; // the same characters as integers, for the reference
   unsigned n;
 };
+using input = basic_input<char>;
 
-inline void fresh_input(input &in, unsigned const n)
+template <typename Ch>
+void fresh_input(basic_input<Ch> &in, unsigned const n)
 {
   in.n = n;
   for (unsigned i = 0; i < n; ++i)
   {
     // names built at run time (a constant table of strings may become a relative lookup table in the IR)
     char const name[3] = {'c', static_cast<char>('0' + i), 0};
-    in.b[i] = static_cast<char>(verif_u8(name));
+    if constexpr (sizeof(Ch) == 1)
+      in.b[i] = static_cast<Ch>(verif_u8(name));
+    else
+      in.b[i] = static_cast<Ch>(verif_u32(name)); // wchar_t: all 2^32 values
   }
   for (unsigned i = n; i <= max_len; ++i)
     in.b[i] = 0;
+  for (unsigned i = 0; i <= max_len; ++i)
+    in.code[i] = static_cast<long>(in.b[i]);
 }
 
 // ------------------------------------------------------------------ flat record of a value
@@ -121,6 +138,16 @@ template <>
 struct vtag<unsigned>
 {
   static constexpr u64 value = 1002;
+};
+template <>
+struct vtag<wchar_t>
+{
+  static constexpr u64 value = 1301;
+};
+template <>
+struct vtag<std::wstring>
+{
+  static constexpr u64 value = 1304;
 };
 template <>
 struct vtag<unsigned short>
@@ -160,6 +187,8 @@ struct vtag<fcppt::optional::object<char>>
 
 inline void enc(rec &, fcppt::unit const &) {}
 inline void enc(rec &r, char const c) { r.push(static_cast<unsigned char>(c)); }
+inline void enc(rec &r, wchar_t const c) { r.push(static_cast<u64>(static_cast<long>(c)) & 0xffffffffU); }
+inline void enc(rec &r, std::wstring const &s);
 inline void enc(rec &r, unsigned const c) { r.push(c); }
 inline void enc(rec &r, unsigned short const c) { r.push(c); }
 inline void enc(rec &r, short const c) { r.push(static_cast<u64>(static_cast<std::int64_t>(c))); }
@@ -182,6 +211,12 @@ inline void enc(rec &r, std::string const &s)
 {
   r.push(s.size());
   for (char const c : s)
+    enc(r, c);
+}
+inline void enc(rec &r, std::wstring const &s)
+{
+  r.push(s.size());
+  for (wchar_t const c : s)
     enc(r, c);
 }
 template <typename T>
@@ -325,18 +360,20 @@ struct refres
 struct refctx
 {
   node const *g;
-  char const *in;
+  long const *in; // the input characters as integers (char: -128..127, wchar_t: its value)
   unsigned n;
   unsigned pos;
   rec out;
   unsigned steps;
+  u64 vmask; // how a character is recorded as a value: 0xff for char, 0xffffffff for wchar_t
 };
 
-inline bool member(char const *const s, char const c)
+// node tables only name ASCII characters, which have the same value as char and as wchar_t
+inline bool member(char const *const s, long const c)
 {
   bool r = false;
   for (char const *p = s; *p != 0; ++p)
-    r = r || (*p == c);
+    r = r || (static_cast<long>(*p) == c);
   return r;
 }
 
@@ -369,8 +406,8 @@ inline refres run_node(refctx &c, node const &nd, int const skip)
   {
     if (c.pos >= c.n)
       return fail_res();
-    char const ch = c.in[c.pos++];
-    return ch == static_cast<char>(nd.a) ? ok_res() : fail_res();
+    long const ch = c.in[c.pos++];
+    return ch == static_cast<long>(nd.a) ? ok_res() : fail_res();
   }
   case K_SET:
   case K_NSET:
@@ -378,11 +415,11 @@ inline refres run_node(refctx &c, node const &nd, int const skip)
   {
     if (c.pos >= c.n)
       return fail_res();
-    char const ch = c.in[c.pos++];
+    long const ch = c.in[c.pos++];
     bool const acc = nd.k == K_ANY ? true : (nd.k == K_SET ? member(nd.s, ch) : !member(nd.s, ch));
     if (!acc)
       return fail_res();
-    c.out.push(static_cast<unsigned char>(ch));
+    c.out.push(static_cast<u64>(ch) & c.vmask);
     return ok_res();
   }
   case K_STR:
@@ -391,7 +428,7 @@ inline refres run_node(refctx &c, node const &nd, int const skip)
     {
       if (c.pos >= c.n)
         return fail_res();
-      if (c.in[c.pos++] != *p)
+      if (c.in[c.pos++] != static_cast<long>(*p))
         return fail_res();
     }
     return ok_res();
@@ -646,19 +683,19 @@ inline refres run_node(refctx &c, node const &nd, int const skip)
 }
 
 // ------------------------------------------------------------------ the comparison, shared by every grammar
-template <typename Parser, typename Skipper>
-void check(
+template <typename Ch, typename Parser, typename Skipper>
+void check_ch(
     Parser const &parser, Skipper const &skipper, node const *const g, int const root, int const skiproot, unsigned const n,
-    void (*const precondition)(input const &) = nullptr)
+    void (*const precondition)(basic_input<Ch> const &) = nullptr)
 {
-  input in;
+  basic_input<Ch> in;
   fresh_input(in, n);
   if (precondition != nullptr)
     precondition(in); // restricts the input SHAPE of a few thorough harnesses (documented there)
-  arr_stream s{in.b, n};
+  basic_arr_stream<Ch> s{in.b, n};
   auto const r{fcppt::parse::phrase_parse(parser, s, skipper)};
 
-  refctx c{g, in.b, n, 0, rec{}, 0};
+  refctx c{g, in.code, n, 0, rec{}, 0, sizeof(Ch) == 1 ? u64{0xff} : u64{0xffffffffU}};
   c.out.n = 0;
   c.out.overflow = false;
   refres e = run_skip(c, skiproot);
@@ -694,6 +731,13 @@ void check(
       }
     verif_reach("success");
   }
+}
+template <typename Parser, typename Skipper>
+void check(
+    Parser const &parser, Skipper const &skipper, node const *const g, int const root, int const skiproot, unsigned const n,
+    void (*const precondition)(input const &) = nullptr)
+{
+  check_ch<char>(parser, skipper, g, root, skiproot, n, precondition);
 }
 }
 #endif
